@@ -37,6 +37,17 @@ PROJ = {"C01": {"bit", "table", "crash", "hang", "fatal"}, "C02": {"bit", "table
         "C03": {"bit", "err", "blocked", "crash", "hang", "fatal"}, "C13": {"bit", "table", "crash", "hang", "fatal"}}
 
 
+T2_ASSUMPTIONS = [
+    "T2: yield points sit immediately before the critical sections named in Model/Lk.v; code between two yield points touches shared state "
+    "only under the mutex / atomic of that section (data-race freedom => every real execution is an interleaving of these sections)",
+    "T2: ONE shard; a whole lockGc pass runs while every request goroutine is parked and stands for IGc of every mapped name",
+    "T2: the manager's own GC ticker never fires (interval 10^6 h); GC passes, ticks, context ends and shutdown are schedule items",
+    "T2: shutdown's final lockGc(0) collects nothing on a clock that did not advance since the last access; the model's final pass "
+    "(min-idle -1) assumes it did: the harness advances the fake clock by 1 ns before calling the closer",
+    "T2: getLock's local size check belongs to the model's PGet step: the PGet yield point is the first statement of getLock",
+]
+
+
 def hx(s):
     return s.encode().hex() if s else "-"
 
@@ -720,7 +731,7 @@ def oracle_C13(run, hist=None):
         for o in hist:
             if o.kind in ("try", "lock") and o.res is not None and o.ok:
                 us = sorted(unl_inv.get((o.name, o.key), []), key=lambda u: u.inv)
-                if us and us[0].inv > o.res and not us[0].ok and us[0].err != "lock.ErrManagerShutdown":
+                if us and us[0].inv > o.res and not us[0].ok and us[0].err != "lock.ErrManagerShutdown" and all(u.inv > us[0].res for u in us[1:]):
                     bad.append((us[0].res, "Unlock of the live hold (%r,%r) failed with %s in a run with a GC pass" % (o.name, o.key, us[0].err)))
     return bad
 
@@ -894,6 +905,14 @@ def run_property(ctx, prop, scenarios=None, tier=None, procs=8):
         "incomplete_schedules": sum(1 for r in runs.values() if not r.complete), "schedules_abandoned_after_repeated_hangs": e.get("abandoned", 0), "wall_s": round(time.time() - t0, 1)})
     ctx.coverage["traces_validated_against_impl"] = ctx.coverage.get("traces_validated_against_impl", 0) + len(runs)
     ctx.coverage["evaluations"] = ctx.coverage.get("evaluations", 0) + len(runs)
+    ctx.coverage["distinct_nontrivial"] = ctx.coverage.get("distinct_nontrivial", 0) + distinct
+    tie["rule"] = ("schedules = complete runs of the extracted model Mlk over the scenario's calls, enumerated by DFS over the model's enabled items with "
+                   "the preemption bound (all of them, or a reservoir sample drawn from one PRNG seeded by ctx.seed); each is executed item by item "
+                   "on the real lock.Manager inside a synctest bubble (one critical section per item) and compared after every item; distinct = "
+                   "different item sequences")
+    for a_ in T2_ASSUMPTIONS:
+        if a_ not in ctx.assumptions:
+            ctx.assumptions.append(a_)
     if runs and len(ctx.coverage["samples"]) < 3:
         sid = sorted(runs)[0]
         ctx.coverage["samples"].append({"schedule": sid, "observed_head": runs[sid].raw[:30]})
